@@ -479,8 +479,13 @@ var c04Mutators = []c04Mutator{
 		}
 		return op[:m[2]] + "Nope" + op[m[3]:], true
 	}},
-	{"conflict_across_object_types", func(r *rand.Rand, op string) (string, bool) { // needs an Account-typed parent to be a pure merging conflict
-		return c04AfterBrace(r, op, "... on Admin { cf1: id } ... on User { cf1: id } ... on User { cf1: name }")
+	{"conflict_across_object_types", func(r *rand.Rand, op string) (string, bool) { // a pure merging conflict when the parent is Account-typed
+		ins := "... on Admin { cf1: id } ... on User { cf1: id } ... on User { cf1: name } "
+		if i := strings.Index(op, "accounts { "); i >= 0 && r.Intn(4) != 0 {
+			j := i + len("accounts { ")
+			return op[:j] + ins + op[j:], true
+		}
+		return c04AfterBrace(r, op, strings.TrimSpace(ins))
 	}},
 	{"duplicate_argument", func(r *rand.Rand, op string) (string, bool) {
 		ms := c04ArgsRe.FindAllStringSubmatchIndex(op, -1)
@@ -603,9 +608,26 @@ func c04CheckWith(run *Run, c *c04Case, w *c04Worker) {
 	if def, err := c03Definition(); err == nil {
 		fresh := c03Normalize(def, c.Operation, c.Variables, false)
 		reused := c03NormalizeWith(w.shared, def, c.Operation, c.Variables, false)
+		if os.Getenv("VERIF_DEBUG") != "" {
+			fmt.Fprintf(os.Stderr, "mutated: fresh=%+v reused=%+v\n", fresh, reused)
+		}
 		if (fresh.Err == "") != (reused.Err == "") || fresh.Printed != reused.Printed {
 			run.Violate(Violation{Kind: "oracle", Clause: "no_state_between_documents", Input: in, Impl: reused, Model: fresh,
 				Detail: fmt.Sprintf("a reused normalizer says %q / %s; a fresh one says %q / %s", reused.Err, truncate(reused.Printed, 300), fresh.Err, truncate(fresh.Printed, 300))}, "")
+		}
+	}
+	// … also right after it was stopped in the middle of a document: the unmutated original comes next
+	if c.Mutation != "" && c.Original != "" {
+		if def, err := c03Definition(); err == nil {
+			fresh := c03Normalize(def, c.Original, c.Variables, false)
+			reused := c03NormalizeWith(w.shared, def, c.Original, c.Variables, false)
+			if os.Getenv("VERIF_DEBUG") != "" {
+				fmt.Fprintf(os.Stderr, "original: fresh=%+v reused=%+v\n", fresh, reused)
+			}
+			if (fresh.Err == "") != (reused.Err == "") || fresh.Printed != reused.Printed {
+				run.Violate(Violation{Kind: "oracle", Clause: "no_state_between_documents", Input: in, Impl: reused, Model: fresh,
+					Detail: fmt.Sprintf("after %s, a reused normalizer says about the original document %q / %s; a fresh one says %q / %s", truncate(c.Operation, 300), reused.Err, truncate(reused.Printed, 300), fresh.Err, truncate(fresh.Printed, 300))}, "")
+			}
 		}
 	}
 	// the validator alone, on documents without fragment spreads (it is written for inlined documents)
